@@ -176,4 +176,20 @@ def instrument_model(model, coop):
             return View(s)
 
     cache._dict = IDict(cache._dict)
+
+    # any attribute written on the shared model while tasks run is shared mutable state too:
+    # a schedule point before every attribute write (reads happen while other threads are parked)
+    base = type(model)
+
+    class Instrumented(base):  # type: ignore[misc, valid-type]
+        def __setattr__(s, k, v):
+            coop.point(f"model.setattr:{k}")
+            object.__setattr__(s, k, v)
+
+    Instrumented.__name__ = base.__name__
+    Instrumented.__qualname__ = base.__qualname__
+    try:
+        model.__class__ = Instrumented
+    except TypeError:
+        pass
     return cache._dict
